@@ -232,6 +232,92 @@ theorem ttl_resources_roundtrip :
 
 end Res
 
+/-! ### `resources=true`, full theorem: a dataset with an inlined anonymous node -/
+
+namespace Nest
+
+/-- `_:x` (labelled, referenced twice) and an anonymous node referenced once: written as `[ … ]` -/
+def quads : List (Quad (Fin 2)) :=
+  [ ⟨.bnode 1, .iri (asc "http://xmlns.com/foaf/0.1/knows"), .bnode 0, none⟩,
+    ⟨.iri (asc "file:///tmp/x/s"), .iri (asc "http://schema.org/author"), .bnode 1, none⟩,
+    ⟨.bnode 0, .iri (asc "http://schema.org/name"), .lit (asc "5") (asc "http://www.w3.org/2001/XMLSchema#integer") none, none⟩,
+    ⟨.iri (asc "file:///tmp/x/s"), .iri (asc "http://schema.org/about"), .bnode 0, none⟩ ]
+
+def ts : List (Desc.Triple (Fin 2)) :=
+  [ ⟨.bnode 1, asc "http://xmlns.com/foaf/0.1/knows", .bnode 0⟩,
+    ⟨.iri (asc "file:///tmp/x/s"), asc "http://schema.org/author", .bnode 1⟩,
+    ⟨.bnode 0, asc "http://schema.org/name", .lit (asc "5") (asc "http://www.w3.org/2001/XMLSchema#integer") none⟩,
+    ⟨.iri (asc "file:///tmp/x/s"), asc "http://schema.org/about", .bnode 0⟩ ]
+
+theorem hts : Proofs.C18.triplesOf quads = some ts := by decide
+
+set_option maxRecDepth 100000 in
+theorem ts_ok : ∀ t ∈ ts, C02.TripleOK
+    (TtlEnc.ctxOf Gen.turtle cfg (Prefix.new Prefix.mergeSorter cfg.prefixes) (fun _ : Fin 2 => [])) cfg.base t := by
+  intro t ht
+  simp only [ts, List.mem_cons, List.mem_nil_iff, or_false] at ht
+  rcases ht with rfl | rfl | rfl | rfl
+  · exact ⟨trivial, ⟨by decide, by decide⟩, trivial⟩
+  · exact ⟨⟨by decide, by decide⟩, ⟨by decide, by decide⟩, trivial⟩
+  · exact ⟨trivial, ⟨by decide, by decide⟩, ⟨by decide, by decide, by decide, by decide, by decide⟩⟩
+  · exact ⟨⟨by decide, by decide⟩, ⟨by decide, by decide⟩, trivial⟩
+
+/-- every hypothesis of the full statement holds here (subject map iterated in insertion order, both loops) -/
+theorem ttl_resources_full :
+    ∃ (σ : Fin 2 → List Nat) (doc : List Nat) (out : List TtlDoc.Stmt) (tr : List (Desc.Triple TtlDoc.BN)),
+      pipeTtl Gen.turtle rdfaContext Prefix.mergeSorter Res.raw base
+        (Desc.build (ts.map (Desc.Triple.map σ))).subjects (Desc.build (ts.map (Desc.Triple.map σ))).subjects
+        Witness.U Witness.s0 (some (.strf 0)) .triples (quads.map (Quad.map Witness.node)) = .ok doc ∧
+      TtlDoc.run C02.docCfg .eof none [] doc = (out, .clean) ∧
+      out.map C02.tripleOfStmt = tr.map some ∧ Spec.Iso tr ts :=
+  pipe_preserves_ttl_resources_holds (Fin 2) Prefix.mergeSorter Res.raw base cfg Res.opt cfg_ok Witness.U Witness.U_inj U_ok
+    Witness.s0 Witness.s0_inv 0 (by decide) Witness.node Witness.node_inj .triples quads ts hts (by decide) scope ts_ok
+    (fun σ => (Desc.build (ts.map (Desc.Triple.map σ))).subjects) (fun σ => (Desc.build (ts.map (Desc.Triple.map σ))).subjects)
+    (fun _ => List.Perm.refl _) (fun _ => List.Perm.refl _)
+
+set_option maxRecDepth 100000 in
+/-- the document: the anonymous node is inlined (its fresh label `u` is drawn by the model but never written) -/
+example : pipeTtl Gen.turtle rdfaContext Prefix.mergeSorter Res.raw base
+    [.bnode (BN.asc "u"), .iri (asc "file:///tmp/x/s"), .bnode (BN.asc "x")]
+    [.bnode (BN.asc "u"), .iri (asc "file:///tmp/x/s"), .bnode (BN.asc "x")]
+    Witness.U Witness.s0 (some (.strf 0)) .triples (quads.map (Quad.map Witness.node)) = .ok (asc (
+      "@base <file:///tmp/x/out.ttl> .\n@prefix foaf: <http://xmlns.com/foaf/0.1/> .\n@prefix schema: <http://schema.org/> .\n\n" ++
+      "<s>\n\tschema:about _:x ;\n\tschema:author [ foaf:knows _:x ] .\n" ++
+      "_:x schema:name 5 .\n")) := by decide
+
+/-- the assignment-parametric theorem on the same dataset with ANOTHER admissible assignment (the anonymous node
+    labelled `zz`, as if drawn in a different order): hypotheses satisfiable -/
+def assign : Node → Bytes
+  | some (.bnString _ v) => v
+  | _ => BN.asc "zz"
+
+theorem assign_ok : C02.LabelOK Gen.turtle (assign ∘ Witness.node) where
+  inj := by
+    intro a b h
+    match a, b with
+    | 0, 0 => rfl
+    | 1, 1 => rfl
+    | 0, 1 => exact absurd h (by decide)
+    | 1, 0 => exact absurd h (by decide)
+  ok := by
+    intro b
+    match b with
+    | 0 => exact ⟨by decide, by decide⟩
+    | 1 => exact ⟨by decide, by decide⟩
+
+example (ord1 ord2 : List (Term Bytes))
+    (h1 : ord1.Perm (Desc.build (ts.map (Desc.Triple.map (assign ∘ Witness.node)))).subjects)
+    (h2 : ord2.Perm (Desc.build (ts.map (Desc.Triple.map (assign ∘ Witness.node)))).subjects) :
+    ∃ (doc : List Nat) (out : List TtlDoc.Stmt) (tr : List (Desc.Triple TtlDoc.BN)),
+      pipeTtlAssign Gen.turtle rdfaContext (Prefix.new Prefix.mergeSorter) Res.raw base ord1 ord2 assign .triples
+        (quads.map (Quad.map Witness.node)) = .ok doc ∧
+      TtlDoc.run C02.docCfg .eof none [] doc = (out, .clean) ∧
+      out.map C02.tripleOfStmt = tr.map some ∧ Spec.Iso tr ts :=
+  pipe_preserves_ttl_assign Prefix.mergeSorter Res.raw base cfg true Res.opt cfg_ok Witness.node assign assign_ok .triples
+    quads ts hts ts_ok ord1 ord2 (fun _ => h1) (fun _ => h2)
+
+end Nest
+
 end Example
 
 end RdfModel.C18
